@@ -14,12 +14,9 @@ entirely in the closed map or entirely in the active buffer. `Op.wf s op`: selec
 alignments positive, and a rewrite only targets a statement that was placed.
 
 The step theorems `inv_step`, `step_no_panic`, `rewrite_in_place` hold for EVERY operation in EVERY state
-satisfying `Inv`, with one exception that is a FINDING about the code, not a proof gap: the state `Wrapped`
-(the active region is based at 0, nothing lies above it, and its buffer holds exactly 2^32 bytes). There
-`ActiveSegment::curr_addr` computes `buffer.len() as u32 = 0`, the rewrite of a placed statement misses the
-`write_at` branch, and `assert_eq!(n, 0)` after `output.put` fires (`curr_addr_wrap_finding`, with a reachable
-witness history `wrapped_reachable`). Under `Inv` the buffer never exceeds 2^32 bytes and reaches 2^32 only in
-`Wrapped` (`small_invariant`), so the guard is exactly "a rewrite is not issued in the `Wrapped` state".
+satisfying `Inv`, with no further guard. (Before /repo 46d02de `curr_addr` computed `buffer.len() as u32`, which is 0
+for the 4 GiB buffer of a region based at 0, and the rewrite of a placed statement in that state hit
+`assert_eq!(n, 0)`; the regression theorem `wrapped_rewrite_ok` replays the former witness history.)
 Whole histories (`Legal`, with rewrites licensed by the ghost list `pending`): `reachable_inv`,
 `history_no_panic`, `history_never_replaces`.
 -/
@@ -40,58 +37,45 @@ theorem step_no_panic_nonrewrite (s : State) (op : Op) (inv : Inv s) (wf : Op.wf
     (hop : ∀ a d, op ≠ .rewrite a d) : (step s op).2 ≠ .panic :=
   (step_nonrewrite inv op wf hop).1
 
-/-- the active buffer holds fewer than 2^32 bytes -/
-def Small (s : State) : Prop := ∀ seg, s.active = some seg → seg.buf.length < 4294967296
-
-/-- C13 (`Small` is an invariant, up to one state): under `Inv` the active buffer ends inside the address
-space, hence holds at most 2^32 bytes; it holds exactly 2^32 only in the state `Wrapped` (base 0, completely
-filled 4 GiB buffer). -/
+/-- C13 (size of the active buffer): under `Inv` the active buffer ends inside the address space, hence holds at
+most 2^32 bytes, and exactly 2^32 only in the state `Wrapped` (base 0, completely filled 4 GiB buffer). -/
 theorem small_invariant (s : State) (inv : Inv s) :
-    (∀ seg, s.active = some seg → seg.base + seg.buf.length ≤ 4294967296) ∧ (¬ Wrapped s → Small s) ∧
-    (Wrapped s → ¬ Small s) :=
-  ⟨fun _ ha => buf_le_of_inv inv ha, small_of_inv inv,
-    fun ⟨seg, ha, _, hl⟩ sm => by have := sm seg ha; omega⟩
+    (∀ seg, s.active = some seg → seg.base + seg.buf.length ≤ 4294967296) ∧
+    (∀ seg, s.active = some seg → seg.buf.length = 4294967296 → Wrapped s) :=
+  ⟨fun _ ha => buf_le_of_inv inv ha,
+    fun seg ha hl => ⟨seg, ha, by have := buf_le_of_inv inv ha; omega, hl⟩⟩
 
 /-- C13 (a value resolved later is written at the address its statement occupied): wherever the placed
 statement now lives — in the still active region, or in the closed map because other regions have been
 opened since, including a region that ends exactly where the statement begins — the rewrite succeeds,
-changes the image exactly on `[addr, addr + len)`, puts the resolved bytes there, keeps the invariant.
-Excluded: the `Wrapped` state (see `curr_addr_wrap_finding`). -/
-theorem rewrite_in_place (s : State) (addr : Nat) (d : List UInt8) (inv : Inv s) (nw : ¬ Wrapped s)
+changes the image exactly on `[addr, addr + len)`, puts the resolved bytes there, keeps the invariant. -/
+theorem rewrite_in_place (s : State) (addr : Nat) (d : List UInt8) (inv : Inv s)
     (hp : (addr, d.length) ∈ s.pending) :
     (step s (.rewrite addr d)).2 = .ok ∧ Inv (step s (.rewrite addr d)).1 ∧
     (∀ k, ¬ (addr ≤ k ∧ k < addr + d.length) → image (step s (.rewrite addr d)).1 k = image s k) ∧
     (∀ i, i < d.length → image (step s (.rewrite addr d)).1 (addr + i) = d[i]?) :=
-  let h := rewrite_spec inv addr d hp (small_of_inv inv nw)
+  let h := rewrite_spec inv addr d hp
   ⟨h.1, h.2.1, h.2.2.1, h.2.2.2.1⟩
 
-/-- C13 (invariant), every operation (a rewrite not in the `Wrapped` state). -/
-theorem inv_step (s : State) (op : Op) (inv : Inv s) (wf : Op.wf s op) (g : op.isRewrite → ¬ Wrapped s) :
-    Inv (step s op).1 :=
-  (legal_step inv op wf g).2
+/-- C13 (invariant), every operation. -/
+theorem inv_step (s : State) (op : Op) (inv : Inv s) (wf : Op.wf s op) : Inv (step s op).1 :=
+  (legal_step inv op wf).2
 
-/-- C13 (no panic), every operation: under the invariant, and with rewrites only of placed statements (not in
-the `Wrapped` state), no `assert!`/`assert_eq!`, `remaining()` underflow or map index panic can fire. -/
-theorem step_no_panic (s : State) (op : Op) (inv : Inv s) (wf : Op.wf s op) (g : op.isRewrite → ¬ Wrapped s) :
-    (step s op).2 ≠ .panic :=
-  (legal_step inv op wf g).1
+/-- C13 (no panic), every operation: under the invariant, and with rewrites only of placed statements, no
+`assert!`/`assert_eq!`, `remaining()` underflow or map index panic can fire. -/
+theorem step_no_panic (s : State) (op : Op) (inv : Inv s) (wf : Op.wf s op) : (step s op).2 ≠ .panic :=
+  (legal_step inv op wf).1
 
-/-- FINDING (C13, `ActiveSegment::curr_addr` wraps for a 4 GiB buffer). In the state `Wrapped` — region based
-at 0 whose buffer holds exactly 2^32 bytes — `curr_addr()` is `0.saturating_add(2^32 as u32) = 0`, so the
-rewrite of ANY placed non-empty statement at an address above 0 fails the test `addr <= curr_addr()`, goes to
-`output.put`, which fills fresh addresses, and `assert_eq!(n, 0)` panics. -/
-theorem curr_addr_wrap_finding (s : State) (inv : Inv s) (seg : Active) (ha : s.active = some seg)
-    (hb : seg.base = 0) (hl : seg.buf.length = 4294967296) (addr : Nat) (d : List UInt8)
-    (hp : (addr, d.length) ∈ s.pending) (h0 : 0 < addr) (hd : d ≠ []) :
-    seg.cur = 0 ∧ (step s (.rewrite addr d)).2 = .panic :=
-  ⟨by unfold Active.cur; rw [hb, hl]; rfl, rewrite_wrapped_panics inv ha hb hl addr d hp h0 hd⟩
-
-/-- The `Wrapped` state is reachable by a legal history, and the panic of the finding with it: `.addr 0`, 2^32−2
-bytes of data, one two-byte statement (placed at 0xFFFFFFFE), then the rewrite of that statement. -/
-theorem wrapped_reachable (big : List UInt8) (hb : big.length = 4294967294) (x y x' y' : UInt8) :
+/-- Regression for the former finding (`curr_addr` wrapped to 0 for a 4 GiB buffer, fixed by /repo 46d02de): the
+witness history `.addr 0`, 2^32−2 bytes of data, one two-byte statement (placed at 0xFFFFFFFE) is legal and reaches
+the `Wrapped` state, where the cursor is now 0xFFFFFFFF, and the rewrite of that statement succeeds in place. -/
+theorem wrapped_rewrite_ok (big : List UInt8) (hb : big.length = 4294967294) (x y x' y' : UInt8) :
     let ops : List Op := [.select 0, .append big, .place [x, y]]
     Legal init ops ∧ Wrapped (run init ops) ∧ (4294967294, 2) ∈ (run init ops).pending ∧
-    (step (run init ops) (.rewrite 4294967294 [x', y'])).2 = .panic := by
+    (∀ seg, (run init ops).active = some seg → seg.cur = 4294967295) ∧
+    (step (run init ops) (.rewrite 4294967294 [x', y'])).2 = .ok ∧
+    image (step (run init ops) (.rewrite 4294967294 [x', y'])).1 4294967294 = some x' ∧
+    image (step (run init ops) (.rewrite 4294967294 [x', y'])).1 4294967295 = some y' := by
   intro ops
   have h1 : step init (.select 0) = (⟨[], some ⟨0, [], 4294967296⟩, []⟩, .ok) := by rfl
   have h2 : step ⟨[], some ⟨0, [], 4294967296⟩, []⟩ (.append big) = (⟨[], some ⟨0, big, 4294967296⟩, []⟩, .ok) := by
@@ -102,17 +86,23 @@ theorem wrapped_reachable (big : List UInt8) (hb : big.length = 4294967294) (x y
   have hrun : run init ops = ⟨[], some ⟨0, big ++ [x, y], 4294967296⟩, [(4294967294, 2)]⟩ := by
     simp only [ops, run, List.foldl, h1, h2, h3]
   have hlegal : Legal init ops := by
-    refine ⟨by show (0 : Nat) ≤ u32Max; decide, fun h => h.elim, ?_⟩
+    refine ⟨by show (0 : Nat) ≤ u32Max; decide, ?_⟩
     rw [h1]
-    refine ⟨trivial, fun h => h.elim, ?_⟩
+    refine ⟨trivial, ?_⟩
     rw [h2]
-    exact ⟨trivial, fun h => h.elim, trivial⟩
+    exact ⟨trivial, trivial⟩
   have hinv := (run_inv ops init inv_init hlegal).1
-  refine ⟨hlegal, ?_, ?_, ?_⟩
+  have hp : (4294967294, [x', y'].length) ∈ (run init ops).pending := by rw [hrun]; simp
+  obtain ⟨r1, _, _, r4⟩ := rewrite_in_place _ 4294967294 [x', y'] hinv hp
+  refine ⟨hlegal, ?_, ?_, ?_, r1, ?_, ?_⟩
   · rw [hrun]; exact ⟨_, rfl, rfl, by simp [hb]⟩
   · rw [hrun]; simp
-  · have hp : (4294967294, [x', y'].length) ∈ (run init ops).pending := by rw [hrun]; simp
-    exact rewrite_wrapped_panics hinv (by rw [hrun]) rfl (by simp [hb]) 4294967294 [x', y'] hp (by decide) (by simp)
+  · intro seg hs
+    rw [hrun] at hs
+    cases hs
+    simp [Active.cur, hb, u32Max]
+  · exact r4 0 (by simp)
+  · exact r4 1 (by simp)
 
 /-- C13 (bytes are never replaced): no operation other than the rewrite of a placed statement changes a
 byte already present in the image — whether the operation succeeds or is refused. -/
@@ -209,8 +199,7 @@ theorem capacity_meaning (s : State) (seg : Active) (inv : Inv s) (ha : s.active
 
 /-- C13 (whole histories, WITH rewrites of placed statements). `Legal s ops`: every operation is well-formed
 in the state it is issued in — a rewrite must target an entry `(addr, len)` of the ghost list `pending`, i.e. a
-statement that an earlier `place` of this very history put at `addr` with `len` bytes — and no rewrite is issued
-in the `Wrapped` state. Every state reached from `init` by a legal history satisfies the invariant. -/
+statement that an earlier `place` of this very history put at `addr` with `len` bytes. Every state reached from `init` by a legal history satisfies the invariant. -/
 theorem reachable_inv (ops : List Op) (lg : Legal init ops) : Inv (run init ops) :=
   (run_inv ops init inv_init lg).1
 
@@ -231,8 +220,8 @@ theorem history_never_replaces (pre ops : List Op) (lg : Legal init (pre ++ ops)
     | nil => intro s h; exact ⟨trivial, h⟩
     | cons op r ih =>
       intro s h
-      obtain ⟨i1, i2⟩ := ih _ h.2.2
-      exact ⟨⟨h.1, h.2.1, i1⟩, i2⟩
+      obtain ⟨i1, i2⟩ := ih _ h.2
+      exact ⟨⟨h.1, i1⟩, i2⟩
   obtain ⟨l1, l2⟩ := split pre init lg
   have hrun : run init (pre ++ ops) = run (run init pre) ops := by simp [run, List.foldl_append]
   rw [hrun]
@@ -243,14 +232,10 @@ example : Legal init [.select 0x100, .place [0, 0xBE], .select 0x200, .rewrite 0
     outs init [.select 0x100, .place [0, 0xBE], .select 0x200, .rewrite 0x100 [1, 2]] =
       [.ok, .placed 0x100, .ok, .ok] ∧
     (run init [.select 0x100, .place [0, 0xBE], .select 0x200, .rewrite 0x100 [1, 2]]).map = [(0x100, [1, 2])] := by
-  refine ⟨⟨by show (0x100 : Nat) ≤ u32Max; decide, fun h => h.elim, trivial, fun h => h.elim,
-    by show (0x200 : Nat) ≤ u32Max; decide, fun h => h.elim, ?_, ?_, trivial⟩, by rfl, by rfl⟩
-  · show ((0x100 : Nat), 2) ∈ [((0x100 : Nat), 2)]
-    simp
-  · rintro _ ⟨seg, h, _, hl⟩
-    have h' : some (⟨0x200, [], 4294966784⟩ : Active) = some seg := h
-    cases h'
-    simp at hl
+  refine ⟨⟨by show (0x100 : Nat) ≤ u32Max; decide, trivial, by show (0x200 : Nat) ≤ u32Max; decide, ?_, trivial⟩,
+    by rfl, by rfl⟩
+  show ((0x100 : Nat), 2) ∈ [((0x100 : Nat), 2)]
+  simp
 
 -- non-vacuity: the F10 / F12 / F22 witnesses on the model (capacity 4 before 0x104; re-selecting a non-empty
 -- region; a region filled through 0xFFFFFFFF)
